@@ -11,6 +11,11 @@ func init() {
 			for k := 0; k <= maxK; k++ {
 				jobs = append(jobs, Job{Pkg: "root", Func: "verifC09", Args: []int64{int64(k), 6}})
 			}
+			// all ten payload kinds (adds AAAA, SRV, HTTPS/SVCB, PTR) on pairs (quick) and triples (thorough)
+			jobs = append(jobs, Job{Pkg: "root", Func: "verifC09", Args: []int64{2, 10}})
+			if tier == "thorough" {
+				jobs = append(jobs, Job{Pkg: "root", Func: "verifC09", Args: []int64{3, 10}})
+			}
 			if tier == "thorough" {
 				jobs = append(jobs, Job{Pkg: "root", Func: "verifC09", Args: []int64{4, 4}})
 				jobs = append(jobs, Job{Pkg: "root", Func: "verifC09", Args: []int64{5, 3}})
@@ -20,10 +25,10 @@ func init() {
 		Setup:     setupNetip,
 		MustReach: []string{"c09.mixed", "c09.two-exceptions"},
 		Bounds: map[string]string{
-			"quick":    "sequences of 0..3 rewrite rules; each rule: exception flag and $important symbolic, payload one of {empty, CNAME, rcode-only, A, TXT, MX} with symbolic contents",
+			"quick":    "sequences of 0..3 rewrite rules; each rule: exception flag and $important symbolic, payload one of {empty, CNAME, rcode-only, A, TXT, MX} with symbolic contents; pairs over all ten kinds (plus AAAA, SRV, HTTPS/SVCB with a parameter map, PTR)",
 			"thorough": "as quick, plus sequences of 4 rules over {empty, CNAME, rcode-only, A} and of 5 rules over {empty, CNAME, rcode-only}",
 		},
-		Outside:     []string{"SRV/SVCB/HTTPS/AAAA/PTR payloads (same comparison path as MX / A / TXT)", "more than 5 rewrite rules on one hostname", "$badfilter on rewrite rules (C08)"},
+		Outside:     []string{"more than 5 rewrite rules on one hostname", "$badfilter on rewrite rules (C08)"},
 		Assumptions: []string{"rules are built field by field and re-parsed from '||x^$dnsrewrite=...' text during native replay"},
 		Rule:        "payload kinds fork (concrete dynamic types); flags and contents are symbolic; one state per feasible path",
 	})
